@@ -13,9 +13,10 @@ import (
 )
 
 func run(c *vh.Ctx) error {
-	c.Res.Rule = "(a) scanner correspondence: each hand-written scanner on corpus items, truncations, mutations and inflated headers; distinct by (scanner, input); (b) fuzzing: per entry point its real seeds, fixed adversarial inputs (nesting 10..100000, claimed lengths up to 2^64-1, chunk counts up to 300000) and structure-aware mutations (truncate, byte mutation, length inflation, nesting splice, tag substitution, type confusion, drop/dup item, indefinite rewrite); distinct by (entry point, input); non-trivial = not purely random / empty"
+	c.Res.Rule = "(a) scanner correspondence: each hand-written scanner on corpus items, truncations, mutations and inflated headers; the unexported offset walkers through ExtractTransactionOffsets / DecodeWithOffsets on a fixed corpus of tiny blocks at the edges of every arity / kind guard of the three layouts plus real-fixture cuts and synthetic blocks mutated at tree level; protocol.readLoop through a real Protocol over net.Pipe fed adversarial segment streams; distinct by (scanner, input); (b) fuzzing: per entry point its real seeds, fixed adversarial inputs (nesting 10..100000, claimed lengths up to 2^64-1, chunk counts up to 300000) and structure-aware mutations (truncate, byte mutation, length inflation, nesting splice, tag substitution, type confusion, drop/dup item, indefinite rewrite); distinct by (entry point, input); non-trivial = not purely random / empty"
 	c.Res.Modelled = []string{
 		"fxamacker/cbor (reflection-driven decoding, well-formedness check, Skip/Decode/NumBytesRead of the stream decoder) is NOT modelled line by line: in the scanner model it is the Lib CBOR parser plus an acceptance predicate, and its own totality / memory use is only fuzzed",
+		"fxamacker's typed destinations in the offset walkers and the protocol read loop (Decode into uint64 / []RawMessage / []uint64: tags skipped, null leaves the zero value, simple values decode as numbers) are modelled from calibration runs; inputs with tags 0..5, tag 55799, or that hit the library's resource rules (10^7 elements, string length overflow) are left out of the correspondence and only fuzzed",
 		"heap growth and wall time are runtime facts: measured by fuzzing (runtime.MemStats.TotalAlloc delta per case, watchdog on the live heap), not proved",
 	}
 	var rp *freplay
